@@ -529,5 +529,14 @@ def r08_15(ctx):
     ctx.ok(construct, f.loc(), atoms=len(ac.atoms))
 
 
+def r08_16(ctx):
+    """R08.16 default-marked choice entries never replace the user's pick: Choice.resolve_defaults() restores the recorded
+    selection after it user-set the members (C05 R05.8) - otherwise the member that is effective at the moment (a marked
+    `CONFIG_A=y`) becomes the user's selection and is pinned."""
+    from . import c05
+    from .common import delegate
+    delegate(ctx, c05.r05_8, lambda c: True)
+
+
 def rules():
-    return [("R08.15", r08_15, 1), ("R08.14", r08_14, 1), ("R08.13", r08_13, 4), ("R08.12", r08_12, 1), ("R08.11", r08_11, 3), ("R08.10", r08_10, 3), ("R08.9", r08_9, 5), ("R08.1", r08_1, 2), ("R08.2", r08_2, 2), ("R08.3", r08_3, 8), ("R08.5", r08_5, 3), ("R08.6", r08_6, 8), ("R08.7", r08_7, 6), ("R08.8", r08_8, 1)]
+    return [("R08.16", r08_16, 1), ("R08.15", r08_15, 1), ("R08.14", r08_14, 1), ("R08.13", r08_13, 4), ("R08.12", r08_12, 1), ("R08.11", r08_11, 3), ("R08.10", r08_10, 3), ("R08.9", r08_9, 5), ("R08.1", r08_1, 2), ("R08.2", r08_2, 2), ("R08.3", r08_3, 8), ("R08.5", r08_5, 3), ("R08.6", r08_6, 8), ("R08.7", r08_7, 6), ("R08.8", r08_8, 1)]
